@@ -748,7 +748,8 @@ def pushEndInstructions (lastInstruction : Option Instr) (rootStart : Nat) (data
       match lastInstruction with
       | some instruction =>
         -- commit 3cee692: an instruction of an earlier root does not count as this root's terminator
-        if instruction = endInstruction ∧ getInstructionLen data > rootStart then data
+        -- later commit: only an explicit EndExpression may stand in for the root's own terminator
+        if instruction = endInstruction ∧ endInstruction.1 = .endExpression ∧ getInstructionLen data > rootStart then data
         else pushInstr data endInstruction.1 endInstruction.2 none
       | none => pushInstr data endInstruction.1 endInstruction.2 none
     pushEndInstructions lastInstruction rootStart data rest
